@@ -129,6 +129,10 @@ def configs(tier):
     # of A's transition; every action must still read the data of its own event
     for bvar in ('accept', 'notrans', 'condfalse', 'chain'):
         out.append(dict(kind='pair', bvar=bvar, states=['a', 'b'], rules=[]))
+    # an entry action chains an event whose type does not exist (EdzedUnknownEvent is reported to
+    # the sender, the simulation goes on): afterwards the FSM follows its table as before
+    for how in ('ext', 'direct'):
+        out.append(dict(kind='unknown-chain', how=how, states=['a', 'b', 'c'], rules=[]))
     # several instances of ONE FSM class, some with external conditions / actions given to the
     # constructor: every instance follows its own
     for ext in ((0,), (1,), (2,), (0, 2), (0, 1, 2), ()):
@@ -629,6 +633,66 @@ def cfg_key(cfg):
     return repr(sorted((k, repr(v)) for k, v in cfg.items()))
 
 
+class ThenFSM(edzed.FSM):
+    STATES = ['a', 'b', 'c']
+    EVENTS = [('go', 'a', 'b'), ('nx', 'b', 'c'), ('back', None, 'a')]
+
+    def enter_b(self):
+        then = edzed.fsm_event_data.get().get('then')
+        if then:
+            self.event(then)
+
+
+def run_unknown_chain(cfg, acc):
+    viol = []
+    steps = []
+    with Sim() as sim:
+        fsm = ThenFSM('fsm')
+
+        def send(etype, **data):
+            try:
+                if cfg['how'] == 'ext':
+                    return edzed.ExtEvent(fsm, etype).send(**data)
+                return fsm.event(etype, **data)
+            except edzed.EdzedUnknownEvent:
+                return 'EdzedUnknownEvent'
+            except Exception as err:    # pylint: disable=broad-except
+                return repr(err)
+
+        async def driver():
+            task = asyncio.create_task(sim.circuit.run_forever())
+            await sim.circuit.wait_init()
+            table = {('go', 'a'): 'b', ('nx', 'b'): 'c', ('back', 'a'): 'a', ('back', 'b'): 'a', ('back', 'c'): 'a'}
+            ret = send('go', then='no_such_event')
+            steps.append(('go then=no_such_event', ret, fsm.state))
+            if ret != 'EdzedUnknownEvent':
+                viol.append(('return-value', f"chained unknown event: event() -> {ret!r}"))
+            for et, data in (('nx', {}), ('go', {}), ('back', {}), ('go', {'then': 'nx'}), ('nx', {}),
+                             ('back', {}), ('go', {}), ('nx', {})):
+                before = fsm.state
+                if sim.circuit.error is not None:
+                    viol.append(('unexpected-error', f"after {steps}: {sim.circuit.error!r}"))
+                    break
+                ret = send(et, **data)
+                exp_state = table.get((et, before))
+                if exp_state == 'b' and data.get('then') == 'nx':
+                    exp_state = 'c'
+                exp_ret = exp_state is not None
+                steps.append((et, ret, fsm.state))
+                if ret is not exp_ret or fsm.state != (exp_state or before):
+                    viol.append(('wrong-state', f"after an entry action had chained an unknown event: {et!r} {data} in "
+                                 f"state {before!r} -> returned {ret!r}, state {fsm.state!r}; the table says "
+                                 f"{exp_ret}, {exp_state or before!r}; steps {steps}"))
+                    break
+            await stop(sim.circuit)
+            del task
+        sim.run(driver())
+    acc.execs += 1
+    acc.outcome(('unknown-chain', cfg['how'], repr(steps)))
+    acc.state(('unknown-chain', cfg['how']))
+    return viol
+
+
 class Sib(edzed.FSM):
     STATES = ['a', 'b']
     EVENTS = [('e', 'a', 'b'), ('e', 'b', 'a')]
@@ -715,6 +779,10 @@ def run_config(cfg):
     acc = Acc()
     holder = {}
     key = cfg_key(cfg)
+    if cfg['kind'] == 'unknown-chain':
+        for sig, msg in run_unknown_chain(cfg, acc):
+            acc.violation(f"C03:{sig}:unknown-chain", msg, cfg=cfg)
+        return acc
     if cfg['kind'] == 'siblings':
         def on_step2(hist, hc, sym, canon, info):
             for sig, msg in info['viol']:
